@@ -357,6 +357,58 @@ tokenizer = css_parser.tokenize2.Tokenizer()
 savedTokens = []
 
 
+class _SorFilter(object):
+    """Iterator over tokens which, while active, leaves out an S token that is
+    followed by one of ``until`` or by a comment; the next real token ends
+    the active phase."""
+
+    def __init__(self, tokens, until, types):
+        self.tokens = tokens
+        self.until = until
+        self.types = types
+        self.active = True
+        self._pending = []
+
+    def __iter__(self):
+        return self
+
+    def __next__(self):
+        if self._pending:
+            return self._pending.pop(0)
+        token = next(self.tokens)
+        if not self.active:
+            return token
+        if token[0] == self.types.S:
+            try:
+                next_ = next(self.tokens)
+                while next_[0] == self.types.S:
+                    # (several S in a row: white space around a comment
+                    # which the tokenizer has left out)
+                    next_ = next(self.tokens)
+            except StopIteration:
+                return token
+            if next_[1] in self.until:
+                # omit S as e.g. ``,`` has been found
+                return next_
+            elif next_[0] == self.types.COMMENT:
+                # pass COMMENT
+                return next_
+            else:
+                # a real token: the S is handled, normal mode again
+                # (else the S of a nested calc() would be eaten too)
+                self.active = False
+                self._pending.append(next_)
+                return token
+        elif token[0] == self.types.COMMENT:
+            # pass COMMENT
+            return token
+        else:
+            self.active = False
+            return token
+
+    next = __next__
+
+
 class ProdParser(object):
     """Productions parser."""
 
@@ -392,41 +444,18 @@ class ProdParser(object):
             return text
 
     def _SorTokens(self, tokens, until=',/'):
-        """New tokens generator which has S tokens removed,
-        if followed by anything in ``until``, normally a ``,``."""
-        for token in tokens:
-            if token[0] == self.types.S:
-                try:
-                    next_ = next(tokens)
-                    while next_[0] == self.types.S:
-                        # (several S in a row: white space around a comment
-                        # which the tokenizer has left out)
-                        next_ = next(tokens)
-                except StopIteration:
-                    yield token
-                else:
-                    if next_[1] in until:
-                        # omit S as e.g. ``,`` has been found
-                        yield next_
-                    elif next_[0] == self.types.COMMENT:
-                        # pass COMMENT
-                        yield next_
-                    else:
-                        yield token
-                        yield next_
-                        # a real token: the S is handled, normal mode again
-                        # (else the S of a nested calc() would be eaten too)
-                        break
+        """Tokens with S tokens removed if followed by anything in ``until``,
+        normally a ``,`` - up to the next real token.
 
-            elif token[0] == self.types.COMMENT:
-                # pass COMMENT
-                yield token
-            else:
-                yield token
-                break
-        # normal mode again
-        for token in tokens:
-            yield token
+        Called after every term of a value: the same filter is switched on
+        again instead of being wrapped in a new one (a value of a thousand
+        terms would otherwise be read through a thousand nested generators
+        and end in RecursionError)."""
+        if isinstance(tokens, _SorFilter):
+            tokens.until = until
+            tokens.active = True
+            return tokens
+        return _SorFilter(tokens, until, self.types)
 
     def parse(self, text, name, productions, keepS=False, checkS=False, store=None,
               emptyOk=False, debug=False):
